@@ -66,6 +66,16 @@ static std::string show_arr(const A &a, int ax, int bx, int ay, int by, int az, 
   return "S " + s3(a.size()) + " N " + su(a.numElements()) + " G " + join(g) + (split ? " GM " + join(gm) : "");
 }
 
+template <typename A>
+static std::string show_range(const A &arr, const vec3i &b, const vec3i &e)
+{
+  auto r = arr.getValueRange(b, e);
+  std::vector<std::string> g;
+  for_each(b, e, [&](const vec3i &idx) { g.push_back(si((i64)arr.get(idx))); });
+  std::string res = r.empty() ? std::string("R empty") : "R " + si((i64)r.lower) + " " + si((i64)r.upper);
+  return res + " G " + join(g);
+}
+
 int main()
 {
   std::string line;
@@ -195,7 +205,7 @@ int main()
       in >> d.x >> d.y >> d.z >> s.x >> s.y >> s.z;
       auto base = filled<int>(d, [](int i) { return 1 + i; });
       IndexShiftedArray3D<int> sh(base, s);
-      out << show_arr(sh, -1, d.x + 1, -1, d.y + 1, -1, d.z + 1, true);
+      out << show_arr(sh, -2, d.x + 2, -2, d.y + 2, -2, d.z + 2, true);
     } else if (k == "RP") {
       vec3i d, r;
       in >> d.x >> d.y >> d.z >> r.x >> r.y >> r.z;
@@ -207,7 +217,7 @@ int main()
       in >> d.x >> d.y >> d.z >> lo.x >> lo.y >> lo.z >> hi.x >> hi.y >> hi.z;
       auto base = filled<int>(d, [](int i) { return 1 + i; });
       SubBoxArray3D<int> sb(base, box3i(lo, hi));
-      out << show_arr(sb, -1, hi.x - lo.x + 1, -1, hi.y - lo.y + 1, -1, hi.z - lo.z + 1, true);
+      out << show_arr(sb, -2, hi.x - lo.x + 2, -2, hi.y - lo.y + 2, -2, hi.z - lo.z + 2, true);
     } else if (k == "AC") {
       vec3i d;
       int seed;
@@ -216,9 +226,9 @@ int main()
       Array3DAccessor<int, float> af(base);
       Array3DAccessor<int, unsigned char> ab(base);
       std::vector<std::string> gf, gb;
-      for (int z = 0; z < d.z; ++z)
-        for (int y = 0; y < d.y; ++y)
-          for (int x = 0; x < d.x; ++x) {
+      for (int z = -2; z < d.z + 2; ++z)
+        for (int y = -2; y < d.y + 2; ++y)
+          for (int x = -2; x < d.x + 2; ++x) {
             gf.push_back(si((i64)af.get(vec3i(x, y, z))));
             gb.push_back(si((i64)ab.get(vec3i(x, y, z))));
           }
@@ -240,6 +250,36 @@ int main()
       range_t<int> r = base->getValueRange(b, e);
       if (r.empty()) out << "empty";
       else out << si(r.lower) << " " << si(r.upper);
+    } else if (k == "VA") {
+      // getValueRange THROUGH an adaptor, together with the adaptor's own get() over the same region:
+      // "VA kind dx dy dz seed p0..p5 bx by bz ex ey ez" -> "R lo hi|empty G v,v,..."
+      std::string kind;
+      vec3i d, b, e;
+      int seed, p[6];
+      in >> kind >> d.x >> d.y >> d.z >> seed;
+      for (int j = 0; j < 6; ++j) in >> p[j];
+      in >> b.x >> b.y >> b.z >> e.x >> e.y >> e.z;
+      auto cell = [seed](int i) { return value(seed, i) * 37 - 100; };
+      std::shared_ptr<Array3D<int>> base = filled<int>(d, cell);
+      if (kind == "AB") { Array3DAccessor<int, unsigned char> a(base); out << show_range(a, b, e); }
+      else if (kind == "AS") { Array3DAccessor<int, char> a(base); out << show_range(a, b, e); }
+      else if (kind == "AI") { Array3DAccessor<int, float> a(base); out << show_range(a, b, e); }
+      else if (kind == "AF") {
+        std::shared_ptr<Array3D<float>> fb = filled<float>(d, [cell](int i) { return cell(i) / 4.0f; });
+        Array3DAccessor<float, int> a(fb);
+        out << show_range(a, b, e);
+      }
+      else if (kind == "SH") { IndexShiftedArray3D<int> a(base, vec3i(p[0], p[1], p[2])); out << show_range(a, b, e); }
+      else if (kind == "SB") { SubBoxArray3D<int> a(base, box3i(vec3i(p[0], p[1], p[2]), vec3i(p[3], p[4], p[5]))); out << show_range(a, b, e); }
+      else if (kind == "RP") { Array3DRepeater<int> a(base, vec3i(p[0], p[1], p[2])); out << show_range(a, b, e); }
+      else if (kind == "MS") {
+        std::vector<std::shared_ptr<Array3D<int>>> slices;
+        for (int s2 = 0; s2 < p[0]; ++s2)
+          slices.push_back(filled<int>(d, [seed, s2](int i) { return value(seed + s2, i) * 37 - 100; }));
+        MultiSliceArray3D<int> a(slices);
+        out << show_range(a, b, e);
+      }
+      else out << "bad-kind";
     } else if (k == "BG") {
       // a >2^32-cell array of bytes in untouched (lazily zero) virtual memory: nothing is allocated
       // until a page is written.  "BG dx dy dz x y z v idx": set(c, v); observe get(c), the raw byte at
